@@ -142,6 +142,11 @@ func replayMigrate(c *core.Ctx, lfsBin string, b *behaviour, idx int) (*core.Vio
 			if err := w.Chmod(s.str("b"), s.str("p"), x); err != nil {
 				return nil, fmt.Errorf("step %d %v: %v", i, s, err)
 			}
+		case "relink":
+			l, _ := s["link"].(bool)
+			if err := w.Relink(s.str("b"), s.str("p"), l); err != nil {
+				return nil, fmt.Errorf("step %d %v: %v", i, s, err)
+			}
 		case "tag":
 			r := w.Env.GitDate(w.Clone, w.Now-1800, "tag", "-a", "-m", "annotated tag v1", "v1", s.str("b"))
 			if !r.OK() {
@@ -166,6 +171,9 @@ func replayMigrate(c *core.Ctx, lfsBin string, b *behaviour, idx int) (*core.Vio
 								continue
 							}
 							for p, mode := range m {
+								if mode == "120000" {
+									continue // symbolic links are listed in the step's links field
+								}
 								if (mode == "100755") != want[p] {
 									return nil, fmt.Errorf("world/spec mismatch: commit %q path %s has mode %s, spec exec=%v", subj, p, mode, want)
 								}
@@ -314,7 +322,7 @@ func init() {
 			for _, s := range st {
 				actionsSeen[s.str("a")]++
 				switch s.str("a") {
-				case "merge", "tag", "chmod":
+				case "merge", "tag", "chmod", "relink":
 					feat[s.str("a")] = true
 				case "commit":
 					feat["b:"+ReprName(s.str("blob"))] = true
@@ -341,7 +349,7 @@ func init() {
 		}); err != nil {
 			c.Infra("read behaviours: %v", err)
 		}
-		requireActions(c, "commit", "merge", "tag", "chmod", "import", "export")
+		requireActions(c, "commit", "merge", "tag", "chmod", "relink", "import", "export")
 		keys := []string{}
 		for k := range byClass {
 			keys = append(keys, k)
@@ -364,11 +372,11 @@ func init() {
 		c.Set("traces_validated_against_impl", len(bs))
 		c.Set("evaluations", len(bs))
 		c.Set("distinct_nontrivial", len(bs))
-		c.Set("rule", "behaviours = per-edge output of spec/Migrate.tla for every edge ending in an import or an export (after an import); sampled round-robin over classes (command x selection size x features merge / tag / chmod / blob kinds / branch)")
+		c.Set("rule", "behaviours = per-edge output of spec/Migrate.tla for every edge ending in an import or an export (after an import); sampled round-robin over classes (command x selection size x features merge / tag / chmod / relink / blob kinds / branch)")
 		for i := 0; i < len(bs); i += len(bs)/4 + 1 {
 			c.Sample(json.RawMessage(bs[i].raw))
 		}
-		c.Assume("--everything with --include of one path or *.bin; executable bit only through mode-only commits; symlinks, nested .gitattributes, --above, --fixup, --no-rewrite, --include-ref/--exclude-ref are not yet modelled; .gitattributes written by migrate is treated as managed metadata and not compared")
+		c.Assume("--everything with --include of one path or *.bin; executable bit only through mode-only commits; symbolic links only as type changes of ordinary files (same blob); nested .gitattributes, --above, --fixup, --no-rewrite, --include-ref/--exclude-ref are not yet modelled; .gitattributes written by migrate is treated as managed metadata and not compared")
 	}
 }
 
